@@ -147,3 +147,40 @@ Proof. intros [l1 H1] [l2 H2]. exists (l1 ++ l2). subst. rewrite app_assoc. refl
 Lemma extends_snoc ev e : extends ev (ev ++ [e]). Proof. exists [e]. reflexivity. Qed.
 Lemma extends_in ev ev' e : extends ev ev' -> In e ev -> In e ev'.
 Proof. intros [l H] Hi. subst. apply in_or_app. left. exact Hi. Qed.
+
+(** ---- invariants that also speak about the emitted events ---- *)
+Definition presE {A} (J : sock -> list event -> Prop) (m : M A) : Prop :=
+  forall s ev, J s ev -> wp m s ev (fun _ s' ev' => J s' ev').
+Lemma presE_wp {A} (J : sock -> list event -> Prop) (m : M A) s ev :
+  presE J m -> J s ev -> wp m s ev (fun _ s' ev' => J s' ev').
+Proof. intros H Hi. exact (H s ev Hi). Qed.
+Lemma wp_bind_presE {A B} (J : sock -> list event -> Prop) (m : M A) (f : A -> M B) s ev :
+  wp m s ev (fun _ s' ev' => J s' ev') -> (forall a s' ev', J s' ev' -> wp (f a) s' ev' (fun _ s'' ev'' => J s'' ev'')) ->
+  wp (bind m f) s ev (fun _ s'' ev'' => J s'' ev'').
+Proof. intros H1 H2. eapply wp_bind_cut; [exact H1|]. intros a s' ev' Hi. apply H2. exact Hi. Qed.
+
+Create HintDb c09_presE.
+Ltac wp_invE_step Inv solveI :=
+  lazymatch goal with
+  | |- wp (bind (when _ _) _) _ _ _ => apply wp_bind_when; intro
+  | |- wp (when _ _) _ _ _ => apply wp_when; intro
+  | |- wp (if ?b then _ else _) _ _ _ => destruct b eqn:?
+  | |- wp (match ?x with _ => _ end) _ _ _ => destruct x eqn:?
+  | |- wp (bind _ _) _ _ _ => first [ wp_prim | eapply (wp_bind_presE Inv); [ | intros ] ]
+  | |- wp _ _ _ _ => first [ wp_prim | apply presE_wp; [ solve [ auto with c09_presE ] | ] ]
+  | |- Inv _ _ => solveI
+  | |- _ = _ -> _ => intro
+  end; cbv beta match zeta.
+Ltac wp_invE Inv solveI := repeat (wp_invE_step Inv solveI).
+
+(* plain symbolic execution: primitives, [when], and case splits on [if] / [match] in head position *)
+Ltac wp_split :=
+  lazymatch goal with
+  | |- wp (bind (when _ _) _) _ _ _ => apply wp_bind_when; intro
+  | |- wp (when _ _) _ _ _ => apply wp_when; intro
+  | |- wp (if ?b then _ else _) _ _ _ => destruct b eqn:?
+  | |- wp (match ?x with _ => _ end) _ _ _ => destruct x eqn:?
+  | |- wp (bind (if ?b then _ else _) _) _ _ _ => destruct b eqn:?
+  | |- wp (bind (match ?x with _ => _ end) _) _ _ _ => destruct x eqn:?
+  | |- wp _ _ _ _ => wp_prim
+  end; cbv beta match zeta.
